@@ -1001,7 +1001,9 @@ func main() {
 		}},
 		{"GenLogQuery", func() string {
 			return effectOrder(repo, "stores/eventlogstore/log.go", "read", "logQueryOrder", [][2]string{
-				{"bound", "e.GetHash().String() == hash.String()"}, {"operations", "operation.ParseOperation(e)"}, {"collect", "append(result, e)"}})
+				{"bound", "e.GetHash().String() == hash.String()"}, {"operations", "operation.ParseOperation(e)"}, {"collect", "append(result, e)"}}) +
+				effectOrder(repo, "stores/eventlogstore/log.go", "Get", "logGetOrder", [][2]string{
+					{"listing", "o.Stream(ctx, stream"}, {"asked", "value.GetEntry().GetHash().Equals(cid)"}, {"held", "o.OpLog().Get(cid)"}, {"answer", "return value, nil"}})
 		}},
 		{"GenNewPeer", func() string {
 			return callArgIs(repo, bs, "pubSubChanListener", "NewEventNewPeer", 0, "b.Address()", "newPeerEventHasAddress",
@@ -1022,7 +1024,8 @@ func main() {
 				{"address", "utils.EntryAddress(ctx, b.IO(), b.IPFS(), e)"}, {"addresserr", "aErr != nil"}, {"addresscheck", "canonical.Equals(e.GetHash())"},
 				{"canappend", "CanAppend(e, provider"}, {"verify", "e.Verify(provider"},
 				{"enough", "l.GetEntries().Len()-refused >= amount"}, {"again", "amount + refused"}, {"double", "next > 2*fetchLength"},
-				{"merge", "oplog.Join(l, -1)"}, {"listing", "oplog.Values().Len() > amount"}, {"trim", "oplog.Join(l, amount)"}})
+				{"merge", "oplog.Join(l, -1)"}, {"listing", "oplog.Values().Len() > amount"}, {"trim", "oplog.Join(l, amount)"},
+				{"headerr", "store-handling-head-error"}, {"readable", "b.updateIndex(ctx)"}, {"failed", "return err"}})
 		}},
 		{"GenWatch", func() string {
 			return effectOrder(repo, "pubsub/pubsubcoreapi/pubsub.go", "WatchMessages", "watchMessagesOrder", [][2]string{
